@@ -2,6 +2,8 @@ package main
 
 import (
 	"fmt"
+	"runtime"
+	"strings"
 
 	"github.com/cockroachdb/errors"
 	pkgErr "github.com/pkg/errors"
@@ -117,3 +119,103 @@ func oracleC11DeepStacks(res *Result) {
 		}
 	}
 }
+
+type gStore[T any] struct{ v T }
+
+//go:noinline
+func (*gStore[T]) lookup() error { return errors.New("generic receiver") }
+
+//go:noinline
+func (s gStore[T]) valLookup() error { return errors.WithStack(fmt.Errorf("generic value receiver %v", s.v)) }
+
+//go:noinline
+func genericClosure[T any](x T) error {
+	f := func() error { return errors.Newf("closure in generic %v", x) }
+	return f()
+}
+
+// oracleC11GenericReceivers: the innermost frame lies in a method of a generic type or in a closure
+// inside a generic function: the function name the one-line source reports is the one the Go
+// runtime gives for the captured PC, before and after hops.
+func oracleC11GenericReceivers(res *Result) {
+	c := &Case{ID: "generic-receivers", Cmd: L(Sym("generic-receivers"))}
+	for _, sh := range []namedErr{
+		{"(*gStore[int]).lookup", (&gStore[int]{}).lookup()},
+		{"gStore[string].valLookup", gStore[string]{"s"}.valLookup()},
+		{"closure in generic function", genericClosure(1)},
+		{"Wrap((*gStore[int]).lookup)", errors.Wrap((&gStore[int]{}).lookup(), "ctx")},
+	} {
+		res.OracleEvals["C11.generic_receivers"]++
+		// the runtime's name of the innermost captured frame
+		want := ""
+		for l := sh.e; l != nil; l = errors.UnwrapOnce(l) {
+			if sp, ok := l.(interface{ StackTrace() pkgErr.StackTrace }); ok && len(sp.StackTrace()) > 0 {
+				pc := uintptr(sp.StackTrace()[0]) - 1
+				if fn := runtime.FuncForPC(pc); fn != nil {
+					want = fn.Name()
+				}
+			}
+		}
+		_, _, fn, ok := errors.GetOneLineSource(sh.e)
+		// the reported name is the runtime's name after its last '.', with a trailing "[...]" kept or not
+		// by the library consistently; what must hold: it is a suffix-segment of the runtime's name that
+		// contains the method / closure name itself
+		last := want
+		if i := strings.LastIndex(strings.TrimSuffix(want, "[...]"), "."); i >= 0 {
+			last = want[i+1:]
+		}
+		if !ok || fn == "" || !strings.Contains(want, fn) || !strings.Contains(fn, strings.TrimSuffix(last, "[...]")) {
+			res.fail(c, "C11.generic_receivers", fmt.Sprintf("%s: one-line source names %q, the runtime names the frame %q", sh.name, fn, want), "C11:source-generic")
+			continue
+		}
+		for k := 1; k <= 2; k++ {
+			d, okh := hopsReal(sh.e, k)
+			if !okh || d == nil {
+				break
+			}
+			if _, _, fn2, ok2 := errors.GetOneLineSource(d); !ok2 || fn2 != fn {
+				res.fail(c, "C11.generic_receivers", fmt.Sprintf("%s: one-line source function %q before, %q after %d hop(s)", sh.name, fn, fn2, k), "C11:source-generic-hop")
+				break
+			}
+		}
+	}
+}
+
+// oracleC11RawBytes: safe annotations whose strings are not valid UTF-8 (a telemetry key, a domain,
+// an issue link, a safe detail): every accessor gives the same bytes before and after hops.
+func oracleC11RawBytes(res *Result) {
+	c := &Case{ID: "raw-bytes", Cmd: L(Sym("raw-bytes"))}
+	base := func() error { return errors.New("base") }
+	for _, sh := range []namedErr{
+		{"telemetry key", errors.WithTelemetry(base(), "k\x80", "ok")},
+		{"domain", errors.WithDomain(base(), errors.Domain("d\xff"))},
+		{"issue link", errors.WithIssueLink(base(), errors.IssueLink{IssueURL: "http://x/\xc3", Detail: "det\xfe"})},
+		{"safe details", errors.WithSafeDetails(base(), "v=%s", errors.Safe("\xe2\x82"))},
+		{"hint and detail", errors.WithDetail(errors.WithHint(base(), "h\x80"), "d\x81")},
+		{"U+FFFD itself", errors.WithTelemetry(base(), "k�")},
+	} {
+		want := accSX(sh.e).String()
+		wantSD := fmt.Sprintf("%q", errors.GetAllSafeDetails(sh.e))
+		for k := 1; k <= 3; k++ {
+			res.OracleEvals["C11.raw_bytes"]++
+			d, ok := hopsReal(sh.e, k)
+			if !ok || d == nil {
+				res.fail(c, "C11.raw_bytes", sh.name+": hop panics", "C11:raw-bytes:panic")
+				break
+			}
+			if got := accSX(d).String(); got != want {
+				i := firstDiff(got, want)
+				res.fail(c, "C11.raw_bytes", fmt.Sprintf("%s: accessors differ after %d hop(s) at byte %d: %q vs %q", sh.name, k, i, near(got, i), near(want, i)), "C11:raw-bytes")
+				break
+			}
+			if got := fmt.Sprintf("%q", errors.GetAllSafeDetails(d)); stripOpaqueNames(got) != stripOpaqueNames(wantSD) {
+				res.fail(c, "C11.raw_bytes", fmt.Sprintf("%s: safe details differ after %d hop(s): %s vs %s", sh.name, k, got, wantSD), "C11:raw-bytes-details")
+				break
+			}
+		}
+	}
+}
+
+// stripOpaqueNames: nothing to strip (the original type name of every layer is kept by transfer);
+// kept as a hook for the comparison above.
+func stripOpaqueNames(s string) string { return s }
